@@ -1166,7 +1166,12 @@ impl Interp {
             // recorded as in flight: a crash must find the frame as it was really sent)
             spec.hash = None;
         }
-        let expect = self.model.append_expect(&spec);
+        let expect = if via_http && spec.ttl == Some(WTtl::Head(0)) {
+            // (over HTTP the query string is parsed before the topic is looked at)
+            Ok(false)
+        } else {
+            self.model.append_expect(&spec)
+        };
         let is_nul = spec.topic.as_bytes().contains(&0);
         self.in_flight = Some(InFlight::Append(spec.clone()));
         let res = if via_http {
@@ -1275,7 +1280,8 @@ impl Interp {
     }
 
     pub fn do_import(&mut self, spec: FrameSpec) -> Check {
-        let is_nul = spec.topic.as_bytes().contains(&0);
+        // (unstorable: NUL in the topic, or the TTL that is none - `head:0`)
+        let is_nul = spec.topic.as_bytes().contains(&0) || spec.ttl == Some(WTtl::Head(0));
         let id = spec.id.unwrap();
         self.in_flight = Some(InFlight::Import(spec.clone()));
         let res = if self.use_http(None) {
